@@ -62,19 +62,44 @@ func scratchBase() string {
 // buildAll instruments repo into a scratch directory and builds the harness twice.
 func buildAll(repo string, wantRace bool) (*Build, error) {
 	b, err := buildWith(repo, wantRace, true)
-	if err == nil && b.Desc.GoStmts > 0 && (b.Desc.LockRewrites > 0 || b.Desc.OnceWraps > 0) {
+	rewrites := func(d *instrument.Descriptor) bool {
+		return d != nil && (d.LockRewrites > 0 || d.OnceWraps > 0 || d.WaitHints > 0)
+	}
+	if err == nil && b.Desc.GoStmts > 0 && rewrites(b.Desc) {
 		// the tree starts goroutines of its own: they would reach the rewritten Lock loops, which only the
-		// simulated tasks may execute.  Use real locks and operation-granular scheduling instead.
+		// simulated tasks may execute.  Use real locks instead (such a tree is op_only: operation-granular).
 		b.Cleanup()
 		return buildWith(repo, wantRace, false)
 	}
-	if err != nil && b != nil && b.Desc != nil && (b.Desc.LockRewrites > 0 || b.Desc.OnceWraps > 0) {
-		// the Lock/Do rewrite did not compile (not a sync mutex): fall back to operation-granular scheduling
-		fmt.Fprintf(os.Stderr, "[simctl] lock rewrite does not compile (%v); falling back to operation-granular scheduling\n", firstLine(err.Error()))
+	if err != nil && b != nil && rewrites(b.Desc) {
+		// the Lock/Do/Gosched rewrite did not compile (e.g. not a sync mutex): build again without the rewrite.
+		// Statement-granular scheduling stays on; a task that blocks in a real lock held by a descheduled
+		// task is caught by the per-run watchdog (exit 5) and that batch is repeated operation-granular.
+		fmt.Fprintf(os.Stderr, "[simctl] build with rewritten Lock/Do/Gosched statements failed (%v); building again without the rewrite\n", firstLine(err.Error()))
 		b.Cleanup()
 		return buildWith(repo, wantRace, false)
 	}
 	return b, err
+}
+
+// harnessModule is the module path the harness sources import.
+const harnessModule = "github.com/pion/rtcp"
+
+// pseudoVersion returns a version the go command accepts for a replaced module: vN.0.0 for a path ending in /vN.
+func pseudoVersion(mod string) string {
+	if i := strings.LastIndex(mod, "/v"); i >= 0 {
+		n := mod[i+2:]
+		ok := n != "" && n != "0" && n != "1"
+		for _, c := range n {
+			if c < '0' || c > '9' {
+				ok = false
+			}
+		}
+		if ok {
+			return "v" + n + ".0.0"
+		}
+	}
+	return "v0.0.0"
 }
 
 func firstLine(s string) string {
@@ -113,12 +138,17 @@ func buildWith(repo string, wantRace bool, rewrite bool) (*Build, error) {
 			if err != nil {
 				return b, err
 			}
+			if strings.HasSuffix(e.Name(), ".go") && desc.Module != harnessModule {
+				// the harness is written against the pinned module path; follow a renamed module (…/v2)
+				data = bytes.ReplaceAll(data, []byte(`hook "`+harnessModule+`/zz_simhook"`), []byte(`hook "`+desc.Module+`/zz_simhook"`))
+				data = bytes.ReplaceAll(data, []byte("\t\""+harnessModule+"\"\n"), []byte("\trtcp \""+desc.Module+"\"\n"))
+			}
 			if err := os.WriteFile(filepath.Join(hdir, e.Name()), data, 0o644); err != nil {
 				return b, err
 			}
 		}
 	}
-	gomod := fmt.Sprintf("module rtcpsim/harness\n\ngo 1.20\n\nrequire %s v0.0.0\n\nreplace %s => ../rtcp\n", desc.Module, desc.Module)
+	gomod := fmt.Sprintf("module rtcpsim/harness\n\ngo 1.20\n\nrequire %s %s\n\nreplace %s => ../rtcp\n", desc.Module, pseudoVersion(desc.Module), desc.Module)
 	if err := os.WriteFile(filepath.Join(hdir, "go.mod"), []byte(gomod), 0o644); err != nil {
 		return b, err
 	}
